@@ -162,7 +162,7 @@ theorem atomic_partial (fs₀ : FS) (pre : Store) (txn : Txn) (b : Backend)
 
 /-! ### the PulseStorage front end produces well-formed transactions -/
 
-/-- `PulseStorage.overwrite(top, n)` / `storage[top] = n` (with `fixes/PF-24.diff`): whatever the tree, if
+/-- `PulseStorage.overwrite(top, n)` / `storage[top] = n` (with `fixes/PF-C11a.diff`): whatever the tree, if
 collecting it succeeds the resulting puts are children-first, refer only to entries that load, and touch
 no identifier twice. Hypotheses: the cache only holds stored entries; sub-templates taken from the storage
 load without `top` (the new content of `top` does not refer back to `top`). -/
@@ -214,7 +214,7 @@ theorem atomic_overwrite (b : Backend) (hb : b.fixed = true) (fs₀ : FS) (pre :
       (finalStore b fs₀ (.overwrite top n) pre) :=
   atomic b hb fs₀ pre _ hview hload (collect_wf b fs₀ pre top n hview hcache hre).1
 
-/-- PF-24: without the duplicate check the front end of the pinned tree turns the tree
+/-- PF-C11a: without the duplicate check the front end of the pinned tree turns the tree
 `top[x₁, x₂[y]]` (two different sub-templates named `x` = 1, `y` = 2, `top` = 3) into the puts
 `x ↦ doc(y), y, top`: not children-first, and a failure after the first put leaves `x` listed but unloadable
 (even on the dict backend) -/
